@@ -362,6 +362,11 @@ func (x *Exec) havocCalleeMods(s *State, f *Frame, cc *CallCtx, callee Value) {
 	for _, comp := range comps {
 		x.havocPrefix(s, comp)
 	}
+	if ms.AllHeap {
+		for k := range s.Heap {
+			x.havocPrefix(s, k)
+		}
+	}
 	// captured variables the callee (or a literal nested in it) assigns
 	for _, a := range ms.CellAddrs {
 		fvar, ok := a.(*ssa.FreeVar)
@@ -497,6 +502,7 @@ func (x *Exec) callContract(s *State, f *Frame, cc *CallCtx, target *ssa.Functio
 		if err != nil {
 			// a postcondition over the callee's ghost state cannot be used
 			// by the caller: assuming less is sound
+			x.diag("call of %s in %s: ensures %s not exported to the caller: %v", spec.Name, x.funcName(s.Frames[0].Fn), c.Label, err)
 			continue
 		}
 		for _, sd := range env.Side {
